@@ -285,8 +285,8 @@ def run(tier: str, seed: int) -> int:
     for name, src in whole.repo_sources():
         for opts in (whole.default_opts(inline_functions=False, append_version=False), whole.default_opts(append_version=False)):
             check_program(drv, chk, name, src, opts, [0.0, 1.0, 2.0, 3.0, 5.0, 10.0, 0.5, -1.0], [1, 2], steps, failures, diffs, stats)
-    plan = [("core", 40 if tier == "quick" else 500), ("funcs", 70 if tier == "quick" else 700), ("calls", 40 if tier == "quick" else 400),
-            ("deep", 70 if tier == "quick" else 700)]
+    plan = [("core", 40 if tier == "quick" else 300), ("funcs", 70 if tier == "quick" else 400), ("calls", 40 if tier == "quick" else 250),
+            ("deep", 70 if tier == "quick" else 400)]
     for kind, n in plan:
         for i in range(n):
             g, prog, src, pool = whole.gen_program(r, kind)
